@@ -1,11 +1,11 @@
 (* C03 -- Modular analysis finds the same nil flows as whole-program analysis (engine level, model M1).
-   Proved: the soundness half for every constraint graph (facts never invent a flow) and, from C04/C05, that the
-   importer's result is a function of the set of facts it sees.  The completeness half (facts never lose a flow)
-   is known to fail when a controlled trigger is left pending (finding F15) and is decided by the modular-vs-whole-
-   graph oracle on the real engine and by the driver comparison on real programs. *)
+   Proved, for every constraint graph and every split of it into a publishing package and an importer:
+   soundness (facts never invent a flow), completeness (facts never lose a flow between sites the importer can see)
+   and equality of verdicts on those sites -- the last two under the side condition that no controlled trigger of the
+   publishing package is left pending, whose necessity is finding F15 (C03_refuted_pending_controlled). *)
 From Coq Require Import List Bool Arith.
 From NM Require Import Engine EngineSpec.
-From NP Require Import EngineBasics EngineMain ExportProofs ModularProofs.
+From NP Require Import EngineBasics EngineStep EngineMain ExportProofs ModularProofs ModularComplete.
 Import ListNotations.
 
 (* every atom of a published fact is entailed by the publishing package's own constraint graph *)
@@ -27,3 +27,61 @@ Theorem C03_summary_sound : forall C1 E D,
   (forall a, In a E -> derivable C1 a) -> has_flow (CE E D) -> has_flow (CW C1 D).
 Proof. exact summary_sound. Qed.
 Print Assumptions C03_summary_sound.
+
+(* ---- completeness: modular analysis never loses a flow ----
+   Package P ran on (facts, annots, ts) without conflict, published fo on top of the upstream snapshot up.
+   The importer adds annD / tsD, which mention P's sites only through exported symbols (vis), and is given the facts
+   of P's dependencies plus fo.  One engine observing everything reports a conflict iff the importer's engine does. *)
+Theorem C03_modular_equals_whole : forall exported facts annots ts up st fo annD tsD n,
+  pkg_run_up facts annots ts up st -> export exported up (mp st) = Some fo -> conflicts st = [] ->
+  (forall s, In s (sites_of (csys_of [] annD tsD)) -> vis exported st s) ->
+  (forall k a, In (k, a) (ctld (pkg_csys facts annots ts)) -> dv st k <> None) ->
+  forall stW stI,
+  pkg_run facts (annots ++ annD) (ts ++ tsD) stW ->
+  pkg_run (facts ++ opt_fact n fo) annD tsD stI ->
+  (conflicts stW <> [] <-> conflicts stI <> []).
+Proof. exact modular_equals_whole. Qed.
+Print Assumptions C03_modular_equals_whole.
+
+(* ... and when there is no conflict, both give every site the importer can see the same verdict *)
+Theorem C03_modular_verdicts_equal : forall exported facts annots ts up st fo annD tsD n,
+  pkg_run_up facts annots ts up st -> export exported up (mp st) = Some fo -> conflicts st = [] ->
+  (forall s, In s (sites_of (csys_of [] annD tsD)) -> vis exported st s) ->
+  (forall k a, In (k, a) (ctld (pkg_csys facts annots ts)) -> dv st k <> None) ->
+  forall stW stI,
+  pkg_run facts (annots ++ annD) (ts ++ tsD) stW ->
+  pkg_run (facts ++ opt_fact n fo) annD tsD stI ->
+  conflicts stI = [] ->
+  forall s, vis exported st s -> dv stW s = dv stI s.
+Proof. exact modular_verdicts_equal. Qed.
+Print Assumptions C03_modular_verdicts_equal.
+
+(* at the level of constraint systems, for an arbitrary importer-side system D (further facts included) *)
+Theorem C03_modular_never_loses : forall exported facts annots ts up st fo D,
+  pkg_run_up facts annots ts up st -> export exported up (mp st) = Some fo -> conflicts st = [] ->
+  (forall s, In s (sites_of D) -> vis exported st s) ->
+  (forall k a, In (k, a) (ctld (pkg_csys facts annots ts)) -> dv st k <> None) ->
+  has_flow (CWh facts annots ts D) -> has_flow (CEx facts fo D).
+Proof. exact modular_complete. Qed.
+Print Assumptions C03_modular_never_loses.
+
+(* non-vacuity: a flow exported -> unexported -> unexported -> exported is found both ways, with every hypothesis met *)
+Example C03_modular_example : exists up st fo stW stI,
+  pkg_run_up [] [] exA_ts up st /\ export exA_exported up (mp st) = Some fo /\ conflicts st = [] /\
+  (forall s, In s (sites_of (csys_of [] [] exA_tsD)) -> vis exA_exported st s) /\
+  (forall k a, In (k, a) (ctld (pkg_csys [] [] exA_ts)) -> dv st k <> None) /\
+  pkg_run [] ([] ++ []) (exA_ts ++ exA_tsD) stW /\ pkg_run ([] ++ opt_fact 0 fo) [] exA_tsD stI /\
+  conflicts stW <> [] /\ conflicts stI <> [] /\
+  (exists f, fo = Some f /\ lookup f 2 <> None /\ lookup f 3 <> None).
+Proof. exact exA_holds. Qed.
+
+(* the side condition is necessary (finding F15): with a pending controlled trigger the whole graph has a conflict
+   the importer does not find, all other hypotheses holding *)
+Theorem C03_refuted_pending_controlled : exists up st fo stW stI,
+  pkg_run_up [] [] exB_ts up st /\ export exB_exported up (mp st) = Some fo /\ conflicts st = [] /\
+  (forall s, In s (sites_of (csys_of [] [] exB_tsD)) -> vis exB_exported st s) /\
+  pkg_run [] ([] ++ []) (exB_ts ++ exB_tsD) stW /\ pkg_run ([] ++ opt_fact 0 fo) [] exB_tsD stI /\
+  conflicts stW <> [] /\ conflicts stI = [] /\
+  (exists k a, In (k, a) (ctld (pkg_csys [] [] exB_ts)) /\ dv st k = None).
+Proof. exact exB_refutes. Qed.
+Print Assumptions C03_refuted_pending_controlled.
